@@ -27,9 +27,12 @@ package entity
 //@     invariant forall k int :: { strings.builderContent[&id][k] } 0 <= k && k < i ==> strings.builderContent[&id][k] == (isSec(k) ? secondary0[secCount(k)] : primary0[k - secCount(k)])
 //@     decreases 64 - i
 
+// (the ascii precondition matters for the layout postcondition only - the function is total - so it is an
+// obligation only for callers that rely on the layout: opt idlayout)
 //@ func SeparateIds
 //@   props C13
 //@   nopanic
+//@   opt pre_only_if=idlayout
 //@   requires [ascii] forall k int :: { prefix[k] } 0 <= k && k < len(prefix) ==> prefix[k] < 128
 //@   ensures [lengths] len(primaryPrefix) + len(secondaryPrefix) == len(prefix) && len(secondaryPrefix) == secCount(len(prefix))
 //@   ensures [layout]  forall k int :: { prefix[k] } 0 <= k && k < len(prefix) ==> (isSec(k) ? secondaryPrefix[secCount(k)] : primaryPrefix[k - secCount(k)]) == prefix[k]
